@@ -39,6 +39,8 @@ type XModel struct {
 	logger          logs.Logger
 	batchCache      *sync.Map
 	lastBatch       kvdb.Batch
+	// batchMu guards the two fields above: unconfirmed transactions run DoTx concurrently, each with its own batch
+	batchMu sync.Mutex
 	// extUtxoCache caches per bucket key-values using version as key
 	extUtxoCache sync.Map // map[string]*LRUCache
 }
@@ -102,7 +104,7 @@ func (s *XModel) updateExtUtxo(tx *pb.Transaction, batch kvdb.Batch) error {
 			s.logger.Trace("    xmodel put", "putkey", string(putKey), "version", valueVersion)
 		}
 		if len(tx.Blockid) > 0 {
-			s.batchCache.Store(string(bucketAndKey), valueVersion)
+			s.curBatchCache().Store(string(bucketAndKey), valueVersion)
 		}
 		s.bucketCacheStore(txOut.Bucket, valueVersion, &kledger.VersionedData{
 			RefTxid:   tx.Txid,
@@ -162,7 +164,7 @@ func (s *XModel) UndoTx(tx *pb.Transaction, batch kvdb.Batch) error {
 				gcKey := append([]byte(pb.ExtUtxoDelTablePrefix), bucketAndKey...)
 				batch.Delete(gcKey)
 			}
-			s.batchCache.Store(string(bucketAndKey), "")
+			s.curBatchCache().Store(string(bucketAndKey), "")
 		} else {
 			verData, err := s.fetchVersionedData(txOut.Bucket, previousVersion)
 			if err != nil {
@@ -184,7 +186,7 @@ func (s *XModel) UndoTx(tx *pb.Transaction, batch kvdb.Batch) error {
 					batch.Delete(delKey) //remove garbage in gc table
 				}
 			}
-			s.batchCache.Store(string(bucketAndKey), previousVersion)
+			s.curBatchCache().Store(string(bucketAndKey), previousVersion)
 		}
 	}
 	return nil
@@ -223,7 +225,7 @@ func (s *XModel) fetchVersionedData(bucket, version string) (*kledger.VersionedD
 // GetUncommited get value for specific key, return the value with version, even it is in batch cache
 func (s *XModel) GetUncommited(bucket string, key []byte) (*kledger.VersionedData, error) {
 	rawKey := makeRawKey(bucket, key)
-	cacheObj, cacheHit := s.batchCache.Load(string(rawKey))
+	cacheObj, cacheHit := s.curBatchCache().Load(string(rawKey))
 	if cacheHit {
 		version := cacheObj.(string)
 		if version == "" {
@@ -334,10 +336,18 @@ func (s *XModel) CleanCache() {
 }
 
 func (s *XModel) cleanCache(newBatch kvdb.Batch) {
+	s.batchMu.Lock()
+	defer s.batchMu.Unlock()
 	if newBatch != s.lastBatch {
 		s.batchCache = &sync.Map{}
 		s.lastBatch = newBatch
 	}
+}
+
+func (s *XModel) curBatchCache() *sync.Map {
+	s.batchMu.Lock()
+	defer s.batchMu.Unlock()
+	return s.batchCache
 }
 
 func (s *XModel) bucketCache(bucket string) *cache.LRUCache {
